@@ -254,6 +254,22 @@ def run(ctx):
         seq = w.run()
         parsed = FR.parse_records(seq)
         got = judge(ctx, fmt, CAMX + wrp, q, parsed, where)
+        # list pieces built by repetition: `[..] * (n - 2)` has 4 * (n - 2) elements only when n >= 2; Python gives the empty list
+        # for a negative count, so for the smallest grids the statement admits (every dimension length >= 1) the piece is longer than
+        # the polynomial says and the marker no longer equals the payload
+        seen_rc = set()
+        for e_, cnt in getattr(w, 'repeat_counts', []):
+            if norm(e_) in seen_rc or not isinstance(cnt, Poly):
+                continue
+            seen_rc.add(norm(e_))
+            low = sum(cnt.t.values())          # value with every atom = 1 (coefficients of a length expression are >= 0 apart from the constant)
+            if all(v_ >= 0 for k_, v_ in cnt.t.items() if k_ != ()) and low < 0:
+                atoms = sorted(set(str(a_) for k_ in cnt.t for a_, pw in k_))
+                ctx.violation(Finding('R-FRAME', CAMX + wrp, q, api.stmt_of(e_), 'the piece %s is repeated %s times; for %s = 1 that count is negative, Python repeats zero times, and the record then holds '
+                                      'more values than its markers announce (%s more): the file written for a grid with a single row / column does not tile into records'
+                                      % (norm(e_.left if isinstance(e_.left, ast.List) else e_.right)[:30], cnt, ', '.join(atoms), -low)), oid='%s:repeat:%s' % (fmt, norm(e_)[:30]))
+            else:
+                ctx.ok('R-FRAME', '%s:repeat:%s' % (fmt, norm(e_)[:30]), where, 'repetition count %s is not negative for lengths >= 1' % cnt)
         if got == 0 and not any(r['kind'] == 'struct' for r in parsed):
             raise AnalysisError('construct not understood: no record emitted by %s' % q)
         nrec += got
